@@ -40,7 +40,15 @@ from . import racesim, tlc
 from .simactor import SimActorSystem
 from .vclock import VirtualClock
 
-NODE_PREFIX = "rally-node"
+def node_prefix(cyc):
+    """provisioning/node.name.prefix of lifecycle cyc: node names tell which lifecycle a node belongs to."""
+    return "rally%d-node" % cyc
+
+
+def node_key(node_name):
+    """'rally<cyc>-node-<n>' -> (cyc, n)"""
+    head, n = node_name.rsplit("-", 1)
+    return int(head[len("rally") : -len("-node")]), int(n)
 _world_counter = [0]
 
 
@@ -104,6 +112,9 @@ class MechWorld:
         self.plan = [dict(x) for x in plan]
         self.cyc = 0
         self.old_ds = set()
+        self.old_actors = set()  # dispatchers and node actors of earlier lifecycles (inert; they exit with M)
+        self.nd_by_cyc = {}
+        self.flushes = {}  # (cyc, ipstr, port) -> number of flush(refresh=True)
         self.D = None  # name of the Dispatcher created in the current lifecycle
         self.inbox_start = 0
         self.clock = VirtualClock()
@@ -118,14 +129,19 @@ class MechWorld:
         self._begin_lifecycle(scn)
         world = self
 
-        PID0 = 1000
+        def obs(node_name):
+            cyc, n = node_key(node_name)
+            return world.nd_by_cyc[cyc][n], n
+
+        def obs_pid(pid):
+            return world.nd_by_cyc[pid // 1000][pid % 1000], pid % 1000
 
         class RecDevice(telemetry.InternalTelemetryDevice):
             def store_system_metrics(self_, node, metrics_store):
                 # like the real IndexSize device: a metric that only exists once the node is shut down
-                n = int(node.node_name.rsplit("-", 1)[1])
+                o, n = obs(node.node_name)
                 metrics_store.put_value_node_level(node.node_name, "final_index_size_bytes", 4096 + n, "byte")
-                world.nd[n]["sysm"] += 1
+                o["sysm"] += 1
                 world.calls.append(("sysmetrics", n))
 
         class RecLauncher(launcher.ProcessLauncher):
@@ -133,36 +149,37 @@ class MechWorld:
             def _start_node(self_, node_configuration, node_count_on_host):
                 if world.next_outcome == "launch":
                     raise RuntimeError("verif: node %s does not start" % node_configuration.node_name)
-                n = int(node_configuration.node_name.rsplit("-", 1)[1])
-                world.nd[n]["starts"] += 1
+                o, n = obs(node_configuration.node_name)
+                o["starts"] += 1
                 world.calls.append(("start", n))
                 t = telemetry.Telemetry([], devices=[RecDevice()])
-                return cluster.Node(PID0 + n, node_configuration.binary_path, node_configuration.ip, node_configuration.node_name, t)
+                cyc = node_key(node_configuration.node_name)[0]
+                return cluster.Node(1000 * cyc + n, node_configuration.binary_path, node_configuration.ip, node_configuration.node_name, t)
 
         class FakeProcess:
             """What ProcessLauncher.stop sees of the node's OS process."""
 
             def __init__(self_, pid=None):
                 self_.pid = pid
-                self_.n = pid - PID0
-                world.nd[self_.n]["stops"] += 1
+                self_.o, self_.n = obs_pid(pid)
+                self_.o["stops"] += 1
                 world.calls.append(("lookup", self_.n))
-                if world.nd[self_.n]["proc"] == "early":
+                if self_.o["proc"] == "early":
                     raise psutil.NoSuchProcess(pid)
 
             def terminate(self_):
-                world.nd[self_.n]["term"] += 1
+                self_.o["term"] += 1
                 world.calls.append(("terminate", self_.n))
-                if world.nd[self_.n]["proc"] == "late":
+                if self_.o["proc"] == "late":
                     raise psutil.NoSuchProcess(self_.pid)
 
             def wait(self_, timeout=None):
-                if world.nd[self_.n]["proc"] == "stubborn":
+                if self_.o["proc"] == "stubborn":
                     raise psutil.TimeoutExpired(timeout, self_.pid)
                 return 0
 
             def kill(self_):
-                world.nd[self_.n]["kills"] += 1
+                self_.o["kills"] += 1
                 world.calls.append(("kill", self_.n))
 
         class PsutilShim:
@@ -174,14 +191,15 @@ class MechWorld:
             def __init__(self_, ip, node_id):
                 self_.ip = ip
                 self_.node_id = node_id
+                self_.cyc = world.cyc
 
             def prepare(self_, binaries):
-                d = os.path.join(world.root, "c%d" % world.cyc, "node%d" % self_.node_id)
+                d = os.path.join(world.root, "c%d" % self_.cyc, "node%d" % self_.node_id)
                 install = os.path.join(d, "install")
                 data = os.path.join(install, "data")
                 os.makedirs(data, exist_ok=True)
-                world.nd[self_.node_id]["dir"] = install
-                name = "%s-%d" % (NODE_PREFIX, self_.node_id)
+                world.nd_by_cyc[self_.cyc][self_.node_id]["dir"] = install
+                name = "%s-%d" % (node_prefix(self_.cyc), self_.node_id)
                 return provisioner.NodeConfiguration("tar", "17", True, self_.ip, name, d, install, [data])
 
         class RecStore(metrics.InMemoryMetricsStore):
@@ -223,10 +241,10 @@ class MechWorld:
         class RecResultsStore:
             def store_results(self_, race):
                 res = race.results[-1]  # the SystemStats the real metrics.calculate_system_results computed for one node
-                n = int(res.verif_node.rsplit("-", 1)[1])
-                world.nd[n]["stored"] += 1
+                o, n = obs(res.verif_node)
+                o["stored"] += 1
                 # is the metric produced while the node was shut down part of the node's stored system results?
-                world.nd[n]["shut"] += sum(1 for m in res.node_metrics if m["node"] == res.verif_node and m["name"] == "index_size")
+                o["shut"] += sum(1 for m in res.node_metrics if m["node"] == res.verif_node and m["name"] == "index_size")
                 world.calls.append(("store", n))
 
         def fake_create(cfg, metrics_store, node_ip, node_http_port, all_node_ips, all_node_ids, sources=False, distribution=False, external=False, docker=False):
@@ -234,7 +252,7 @@ class MechWorld:
                 raise RuntimeError("verif: cannot provision on %s:%s" % (node_ip, node_http_port))
             if external:
                 raise AssertionError("verif: create() called for an externally provisioned cluster")
-            metrics_store.verif_key = (node_ip, node_http_port)
+            metrics_store.verif_key = (world.cyc, node_ip, node_http_port)
             node_ids = cfg.opts("provisioning", "node.ids", mandatory=False)
             provs = [RecProvisioner(node_ip, n) for n in node_ids]
             return mechanic.Mechanic(cfg, metrics_store, lambda: "binaries", provs, RecLauncher(cfg))
@@ -274,15 +292,19 @@ class MechWorld:
         self.n_nodes = len(scn["targets"])
         # observations (the property's observation point), per lifecycle
         self.nd = [{"starts": 0, "stops": 0, "term": 0, "kills": 0, "sysm": 0, "stored": 0, "shut": 0, "dir": None, "proc": "alive"} for _ in range(self.n_nodes)]
+        self.nd_by_cyc[self.cyc] = self.nd
         self.procs = 0  # number of node processes the environment has put into a condition other than alive
-        self.flushes = {}  # (ipstr, port) -> number of flush(refresh=True)
         self.left = set()
         self.fault = "none"
         self.stop_sent = False
         self.resets = 0
+        # whatever actors the previous lifecycle has left behind (its dispatcher; after a failed start also its node actors,
+        # possibly with running nodes) are inert from now on: M has forgotten them, they exit when M exits
+        self.old_actors.update(getattr(self, "names", {}))
         self.names = {}  # actor name -> entry index (1-based)
         if self.D is not None:
             self.old_ds.add(self.D)
+            self.old_actors.add(self.D)
         self.D = None
 
     def _send_start_engine(self):
@@ -292,12 +314,16 @@ class MechWorld:
         ctx = {"race-id": "verif-race", "race-timestamp": "20260101T000000Z", "track": "verif", "challenge": "c", "car": ["verif-car"]}
         self.sim.send("rc", self.M, mechanic.StartEngine(self.cfg, ctx, False, not scn["ext"], bool(scn["ext"]), False))
 
-    def drained(self):
-        """Nothing of the current lifecycle is left: no message in flight, no wake-up of M pending, its node actors gone."""
+    def drained(self, failed_start=False):
+        """Nothing of the current lifecycle is left: no message in flight, no wake-up of M pending, its node actors gone.
+        After a failed start: no message in flight, no wake-up of M pending, the dispatcher no longer subscribed to convention
+        updates (so that nothing of the failed attempt can still reach M); its node actors may live on."""
         if any(q for q in self.sim.chan.values()):
             return False
         if self.sim.pending_timers(self.M):
             return False
+        if failed_start:
+            return not self.listening()
         return not any(self.alive(n) for n in self.names)
 
     # ---- set-up helpers
@@ -320,7 +346,7 @@ class MechWorld:
         cfg.add(S, "mechanic", "repository.revision", "verif-rev")
         cfg.add(S, "mechanic", "distribution.version", "8.6.1")
         cfg.add(S, "mechanic", "preserve.install", bool(self.scn["preserve"]))
-        cfg.add(S, "provisioning", "node.name.prefix", NODE_PREFIX)
+        cfg.add(S, "provisioning", "node.name.prefix", node_prefix(self.cyc))
         # port 0 = no port given (to_ip_port falls back to 9200)
         hosts = ",".join(ip_str(t["ip"]) if t["port"] == 0 else "%s:%d" % (ip_str(t["ip"]), port_num(t["port"])) for t in self.scn["targets"])
         cfg.add(S, "client", "hosts", opts.TargetHosts(hosts))
@@ -410,6 +436,9 @@ class MechWorld:
             res.append(("rc", "teardown"))
         if self.plan and stopped and not failed and not self.torn and self.alive(self.M) and self.drained():
             res.append(("rc", "restart"))
+        # a failed start (no EngineStarted) may be followed by another attempt to start a Rally-provisioned cluster
+        if self.plan and failed and not started and not self.plan[0]["ext"] and not self.torn and self.alive(self.M) and self.drained(failed_start=True):
+            res.append(("rc", "restart"))
         return res, (started and not failed and not self.stop_sent and not self.torn)
 
     def running_nodes(self):
@@ -419,14 +448,16 @@ class MechWorld:
             if self.alive(name):
                 mm = self.inst(name).mechanic
                 for node in (mm.nodes if mm is not None else []):
-                    res.append(int(node.node_name.rsplit("-", 1)[1]))
+                    res.append(node_key(node.node_name)[1])
         return sorted(res)
 
     def enabled(self, faults=True, max_resets=1, max_procs=2):
         res = []
         for dec in self.sim.enabled():
-            if dec[0] == "deliver" and dec[2] in self.old_ds:
-                continue  # idle dispatchers of earlier lifecycles: their exit is executed together with M's
+            if dec[0] == "deliver" and dec[2] in self.old_actors:
+                continue  # inert actors of earlier lifecycles: whatever reaches them is executed silently (see step)
+            if dec[0] == "wakeup" and dec[1] in self.old_actors:
+                continue
             if dec[0] == "deliver":
                 head = self.sim.chan[(dec[1], dec[2])][0]
                 if type(head).__name__ == "StartNodes":
@@ -563,10 +594,12 @@ class MechWorld:
                 self.sim.step(dec[:3] if kind == "deliver" else dec)
             finally:
                 self.next_outcome = "ok"
-            # M has exited: the idle dispatchers of earlier lifecycles exit with it
-            for old in sorted(self.old_ds):
-                while (self.M, old) in self.sim.chan and self.alive(old):
-                    self.sim.step(("deliver", self.M, old))
+        # inert actors of earlier lifecycles (they exit with M; a departing daemon takes its actors along)
+        while True:
+            pend = [d for d in self.sim.enabled() if d[0] == "deliver" and d[2] in self.old_actors]
+            if not pend:
+                break
+            self.sim.step(pend[0])
         self.discover()
         return ev
 
@@ -631,7 +664,7 @@ class MechWorld:
             m2n.append(self._chan(self.M, name))
             n2d.append(self._chan(name, self.D))
             ip, port = self.ents[h - 1]
-            ho.append(self.flushes.get((ip_str(ip), port_num(port)), 0))
+            ho.append(self.flushes.get((self.cyc, ip_str(ip), port_num(port)), 0))
         nd = []
         for x in self.nd:
             if x["dir"] is None:
@@ -663,5 +696,5 @@ class MechWorld:
             "na": na,
             "nd": nd,
             "ho": ho,
-            "env": {"up": sorted(self.up), "left": sorted(self.left), "fault": self.fault, "stopSent": self.stop_sent, "resets": self.resets, "torn": self.torn, "procs": self.procs, "cyc": self.cyc},
+            "env": {"up": sorted(self.up), "left": sorted(self.left), "fault": self.fault, "stopSent": self.stop_sent, "resets": self.resets, "torn": self.torn, "procs": self.procs, "cyc": self.cyc, "stale": 0},
         }
